@@ -45,13 +45,14 @@ func init() {
 		Rule: "models of CRLSets (sequence, parents, 0–4 blocked-SPKI strings, 0–6 distinct issuer hashes with 0–40 serials of 0–20 bytes incl. empty and leading zeros), " +
 			"OneCRL documents (0–12 records: issuer+serial or subject+pubKeyHash, metadata) and SST stores (0–10 certificates with shared/distinct issuers, zero/negative/large serials, " +
 			"interleaved property elements) encoded by the harness; each parsed set is compared with the model and queried with 6–9 certificates " +
-			"(listed, same issuer other serial, other issuer same serial, blocked key/subject, blocked subject other key, unrelated); " +
+			"(listed, same issuer other serial, other issuer same serial, blocked key/subject, blocked subject other key, unrelated) plus sign/width twins of a listed serial; " +
 			"non-trivial = the set parsed and the query was decided; distinct = hash of (format, encoded set, query)",
 		MinNontrivial:         25000,
 		MinNontrivialThorough: 250000,
 		Shards:                16,
 		Assumptions: []string{
-			"serials inside CRLSets and OneCRL records are unsigned big-endian integers; query certificates for these two formats have non-negative serials",
+			"serials inside CRLSets and OneCRL records are unsigned big-endian integers; a certificate is listed iff its serial, as the integer zcrypto's parser reports (DER top bit set = negative), equals one of them; SST lists the signed serials of its certificates",
+			"sign / width twins of listed serials (-s, s±256^k, dropped top byte, -128, 0, 20-byte ±2^160) must not be reported unless the model lists exactly that value; one exception is counted and not asserted: a negative certificate serial whose DER content octets equal a listed byte string (browsers match octets, zcrypto integers — either answer is accepted)",
 			"CRLSet: the blocked-SPKI test applies to the hash string the caller passes (the API takes one hash argument); issuer lists are keyed by the lowercase hex of the 32-byte hash",
 			"issuer names inside one model are pairwise distinct as attribute lists, so keying by Name.String() is unambiguous (twins that differ only by an escaped separator are included on purpose)",
 			"OneCRL pubKeyHash = SHA-256 of the certificate's SubjectPublicKeyInfo DER (named-curve ECDSA and RSA keys from the fixed pool)",
@@ -83,6 +84,13 @@ func (e *c15env) cert(issuer, subject *dn, serial *big.Int, spki int) (*zx509.Ce
 		e.certs[key] = c
 	}
 	return c, nil
+}
+
+// certPadded builds a certificate whose serial INTEGER carries pad extra leading zero octets (not DER).
+func (e *c15env) certPadded(issuer, subject *dn, serial *big.Int, pad, spki int) (*zx509.Certificate, error) {
+	raw := append(make([]byte, pad), intContent(serial)...)
+	der := buildCert(certSpec{serialRaw: raw, issuer: issuer.der, subject: subject.der, spki: e.spkis[spki]}, ecKeys("P256")[e.signer])
+	return zx509.ParseCertificate(der)
 }
 
 func newC15env(c *core.Ctx) *c15env {
@@ -319,6 +327,8 @@ func runCRLSet(e *c15env, caseID string) {
 		kind   string
 		h      string
 		serial *big.Int
+		pad    int      // extra leading zero octets in the certificate's serial INTEGER
+		listed [][]byte // serial bytes listed under h (for the content-octet reading)
 	}
 	var qs []q
 	hexOf := func(i int) string { return hex.EncodeToString(m.issuers[i].hash[:]) }
@@ -326,30 +336,50 @@ func runCRLSet(e *c15env, caseID string) {
 		i := r.IntN(ni)
 		if len(m.issuers[i].serials) > 0 {
 			s := m.issuers[i].serials[r.IntN(len(m.issuers[i].serials))]
-			qs = append(qs, q{"listed", hexOf(i), ub(s)})
-			qs = append(qs, q{"same-issuer-neighbour-serial", hexOf(i), new(big.Int).Add(ub(s), big.NewInt(1))})
+			qs = append(qs, q{kind: "listed", h: hexOf(i), serial: ub(s)})
+			qs = append(qs, q{kind: "same-issuer-neighbour-serial", h: hexOf(i), serial: new(big.Int).Add(ub(s), big.NewInt(1))})
 			j := r.IntN(ni)
-			qs = append(qs, q{"other-issuer-same-serial", hexOf(j), ub(s)})
-			qs = append(qs, q{"unknown-issuer-listed-serial", hex.EncodeToString(randBytes(r, 32)), ub(s)})
+			qs = append(qs, q{kind: "other-issuer-same-serial", h: hexOf(j), serial: ub(s)})
+			qs = append(qs, q{kind: "unknown-issuer-listed-serial", h: hex.EncodeToString(randBytes(r, 32)), serial: ub(s)})
 			last := m.issuers[i].serials[len(m.issuers[i].serials)-1]
-			qs = append(qs, q{"listed-last", hexOf(i), ub(last)})
+			qs = append(qs, q{kind: "listed-last", h: hexOf(i), serial: ub(last)})
+			// sign / width twins of a listed serial: none of them is the listed certificate
+			for _, t := range serialTwins(ub(s)) {
+				qs = append(qs, q{kind: "twin:" + t.kind, h: hexOf(i), serial: t.v, listed: m.issuers[i].serials})
+			}
+			qs = append(qs, q{kind: "listed-with-zero-padded-der-serial", h: hexOf(i), serial: ub(s), pad: 1 + r.IntN(2)})
+			for _, l := range m.issuers[i].serials { // widest serials: 20 bytes listed = 20 or 21 content octets in the certificate
+				if len(l) == 20 {
+					qs = append(qs, q{kind: "listed-20-byte-serial", h: hexOf(i), serial: ub(l)})
+					qs = append(qs, q{kind: "twin:20-byte-plus-2^160", h: hexOf(i), serial: new(big.Int).Add(ub(l), pow256(20)), listed: m.issuers[i].serials})
+					qs = append(qs, q{kind: "twin:20-byte-minus-2^160", h: hexOf(i), serial: new(big.Int).Sub(ub(l), pow256(20)), listed: m.issuers[i].serials})
+					break
+				}
+			}
 		}
-		qs = append(qs, q{"same-issuer-other-serial", hexOf(i), ub(randBytes(r, 1+r.IntN(12)))})
-		qs = append(qs, q{"issuer-zero-serial", hexOf(i), big.NewInt(0)})
+		qs = append(qs, q{kind: "same-issuer-other-serial", h: hexOf(i), serial: ub(randBytes(r, 1+r.IntN(12)))})
+		qs = append(qs, q{kind: "issuer-zero-serial", h: hexOf(i), serial: big.NewInt(0)})
 	}
 	if len(m.blocked) > 0 {
-		qs = append(qs, q{"blocked-spki", m.blocked[r.IntN(len(m.blocked))], ub(randBytes(r, 1+r.IntN(12)))})
+		qs = append(qs, q{kind: "blocked-spki", h: m.blocked[r.IntN(len(m.blocked))], serial: ub(randBytes(r, 1+r.IntN(12)))})
 	}
-	qs = append(qs, q{"unrelated", hex.EncodeToString(randBytes(r, 32)), ub(randBytes(r, 1+r.IntN(12)))})
+	qs = append(qs, q{kind: "unrelated", h: hex.EncodeToString(randBytes(r, 32)), serial: ub(randBytes(r, 1+r.IntN(12)))})
 	if len(b64Raw) > 0 {
 		// Other reading of "blocked SPKI" (not asserted): the header carries base64 strings, callers such as
 		// zcrypto's verifier pass the lowercase hex of the parent's SPKI hash. Under the adopted reading the two
 		// strings differ, so the model says "not blocked"; the disagreement with the hash-level reading is counted.
-		qs = append(qs, q{"blocked-spki-base64-entry-queried-by-hex", hex.EncodeToString(b64Raw[r.IntN(len(b64Raw))]), ub(randBytes(r, 1+r.IntN(12)))})
+		qs = append(qs, q{kind: "blocked-spki-base64-entry-queried-by-hex", h: hex.EncodeToString(b64Raw[r.IntN(len(b64Raw))]), serial: ub(randBytes(r, 1+r.IntN(12)))})
 	}
 	for _, qu := range qs {
-		cert, err := e.cert(e.names[0], e.names[1], qu.serial, 4)
-		if err != nil {
+		var cert *zx509.Certificate
+		var err error
+		if qu.pad > 0 {
+			if cert, err = e.certPadded(e.names[0], e.names[1], qu.serial, qu.pad, 4); err != nil {
+				c.Count("padded_serial_certificate_refused_by_parser", 1)
+				continue
+			}
+			qu.serial = cert.SerialNumber // whatever the parser made of it is the certificate's serial
+		} else if cert, err = e.cert(e.names[0], e.names[1], qu.serial, 4); err != nil {
 			c.Count("query_cert_unparsable", 1)
 			continue
 		}
@@ -360,6 +390,12 @@ func runCRLSet(e *c15env, caseID string) {
 			return
 		}
 		want := m.revoked(qu.h, qu.serial)
+		if contentEqualsListed(qu.serial, qu.listed) {
+			// negative certificate serial whose content octets are a listed byte string: revoked for a matcher on
+			// octets (Chromium), not revoked for a matcher on integers; neither reading is asserted
+			c.Count(fmt.Sprintf("ambiguous_negative_serial_content_equals_listed_bytes:crlset:reported=%v", got != nil), 1)
+			continue
+		}
 		if (got != nil) != want {
 			c.Violation(fmt.Sprintf("crlset:check:%s:want-revoked=%v", qu.kind, want),
 				fmt.Sprintf("Check(serial %s, %q) = %v, the model says revoked=%v", qu.serial, qu.h, got, want), caseID,
@@ -587,6 +623,8 @@ func runOneCRL(e *c15env, caseID string) {
 		issuer, subject int
 		serial          *big.Int
 		spki            int
+		pad             int
+		listed          [][]byte
 	}
 	var qs []q
 	freeSubject := perm[9]
@@ -596,23 +634,46 @@ func runOneCRL(e *c15env, caseID string) {
 		i := order[r.IntN(len(order))]
 		l := byIssuer[i]
 		s := ub(l[r.IntN(len(l))].serial)
-		qs = append(qs, q{"listed", i, freeSubject, s, r.IntN(len(e.spkis))})
-		qs = append(qs, q{"listed-last", i, freeSubject, ub(l[len(l)-1].serial), r.IntN(len(e.spkis))})
-		qs = append(qs, q{"same-issuer-other-serial", i, freeSubject, new(big.Int).Add(s, big.NewInt(1)), r.IntN(len(e.spkis))})
-		qs = append(qs, q{"other-listed-issuer-same-serial", order[r.IntN(len(order))], freeSubject, s, r.IntN(len(e.spkis))})
-		qs = append(qs, q{"unlisted-issuer-same-serial", freeIssuer, freeSubject, s, r.IntN(len(e.spkis))})
-		qs = append(qs, q{"subject-is-listed-issuer", freeIssuer, i, s, r.IntN(len(e.spkis))})
+		qs = append(qs, q{"listed", i, freeSubject, s, r.IntN(len(e.spkis)), 0, nil})
+		qs = append(qs, q{"listed-last", i, freeSubject, ub(l[len(l)-1].serial), r.IntN(len(e.spkis)), 0, nil})
+		qs = append(qs, q{"same-issuer-other-serial", i, freeSubject, new(big.Int).Add(s, big.NewInt(1)), r.IntN(len(e.spkis)), 0, nil})
+		qs = append(qs, q{"other-listed-issuer-same-serial", order[r.IntN(len(order))], freeSubject, s, r.IntN(len(e.spkis)), 0, nil})
+		qs = append(qs, q{"unlisted-issuer-same-serial", freeIssuer, freeSubject, s, r.IntN(len(e.spkis)), 0, nil})
+		qs = append(qs, q{"subject-is-listed-issuer", freeIssuer, i, s, r.IntN(len(e.spkis)), 0, nil})
+		var listed [][]byte
+		for _, rc := range l {
+			listed = append(listed, rc.serial)
+		}
+		for _, t := range serialTwins(s) {
+			qs = append(qs, q{"twin:" + t.kind, i, freeSubject, t.v, r.IntN(len(e.spkis)), 0, listed})
+		}
+		qs = append(qs, q{"listed-with-zero-padded-der-serial", i, freeSubject, s, r.IntN(len(e.spkis)), 1 + r.IntN(2), nil})
+		for _, rc := range l {
+			if len(rc.serial) == 20 {
+				qs = append(qs, q{"listed-20-byte-serial", i, freeSubject, ub(rc.serial), r.IntN(len(e.spkis)), 0, nil})
+				qs = append(qs, q{"twin:20-byte-plus-2^160", i, freeSubject, new(big.Int).Add(ub(rc.serial), pow256(20)), r.IntN(len(e.spkis)), 0, listed})
+				qs = append(qs, q{"twin:20-byte-minus-2^160", i, freeSubject, new(big.Int).Sub(ub(rc.serial), pow256(20)), r.IntN(len(e.spkis)), 0, listed})
+				break
+			}
+		}
 	}
 	if len(blocked) > 0 {
 		b := blocked[r.IntN(len(blocked))]
-		qs = append(qs, q{"blocked-subject-and-key", freeIssuer, b.subject, rs(), b.spki})
-		qs = append(qs, q{"blocked-subject-other-key", freeIssuer, b.subject, rs(), (b.spki + 1 + r.IntN(len(e.spkis)-1)) % len(e.spkis)})
-		qs = append(qs, q{"other-subject-blocked-key", freeIssuer, freeSubject, rs(), b.spki})
+		qs = append(qs, q{"blocked-subject-and-key", freeIssuer, b.subject, rs(), b.spki, 0, nil})
+		qs = append(qs, q{"blocked-subject-other-key", freeIssuer, b.subject, rs(), (b.spki + 1 + r.IntN(len(e.spkis)-1)) % len(e.spkis), 0, nil})
+		qs = append(qs, q{"other-subject-blocked-key", freeIssuer, freeSubject, rs(), b.spki, 0, nil})
 	}
-	qs = append(qs, q{"unrelated", freeIssuer, freeSubject, rs(), r.IntN(len(e.spkis))})
+	qs = append(qs, q{"unrelated", freeIssuer, freeSubject, rs(), r.IntN(len(e.spkis)), 0, nil})
 	for _, qu := range qs {
-		cert, err := e.cert(e.names[qu.issuer], e.names[qu.subject], qu.serial, qu.spki)
-		if err != nil {
+		var cert *zx509.Certificate
+		var err error
+		if qu.pad > 0 {
+			if cert, err = e.certPadded(e.names[qu.issuer], e.names[qu.subject], qu.serial, qu.pad, qu.spki); err != nil {
+				c.Count("padded_serial_certificate_refused_by_parser", 1)
+				continue
+			}
+			qu.serial = cert.SerialNumber
+		} else if cert, err = e.cert(e.names[qu.issuer], e.names[qu.subject], qu.serial, qu.spki); err != nil {
 			c.Count("query_cert_unparsable", 1)
 			c.Note("query certificate unparsable: %v", err)
 			continue
@@ -624,6 +685,11 @@ func runOneCRL(e *c15env, caseID string) {
 			return
 		}
 		want := revoked(qu.issuer, qu.subject, qu.serial, qu.spki)
+		if contentEqualsListed(qu.serial, qu.listed) {
+			// OneCRL's serialNumber is the base64 of the serial's content octets: Firefox matches octets, zcrypto integers
+			c.Count(fmt.Sprintf("ambiguous_negative_serial_content_equals_listed_bytes:onecrl:reported=%v", got != nil), 1)
+			continue
+		}
 		if (got != nil) != want {
 			c.Violation(fmt.Sprintf("onecrl:check:%s:want-revoked=%v", qu.kind, want),
 				fmt.Sprintf("Check(issuer %q, subject %q, serial %s, key #%d) = %v, the model says revoked=%v", e.names[qu.issuer].flat(), e.names[qu.subject].flat(), qu.serial, qu.spki, got, want),
@@ -801,22 +867,35 @@ func runSST(e *c15env, caseID string) {
 		kind   string
 		issuer int
 		serial *big.Int
+		pad    int
+		listed [][]byte // unused for SST: the store lists certificates, the model compares signed integers
 	}
 	var qs []q
 	freeIssuer := perm[10]
 	if len(certs) > 0 {
 		sc := certs[r.IntN(len(certs))]
-		qs = append(qs, q{"listed", sc.issuer, sc.serial})
-		qs = append(qs, q{"listed-last", certs[len(certs)-1].issuer, certs[len(certs)-1].serial})
-		qs = append(qs, q{"same-issuer-other-serial", sc.issuer, new(big.Int).Add(sc.serial, big.NewInt(1))})
-		qs = append(qs, q{"same-issuer-negated-serial", sc.issuer, new(big.Int).Neg(sc.serial)})
-		qs = append(qs, q{"other-listed-issuer-same-serial", order[r.IntN(len(order))], sc.serial})
-		qs = append(qs, q{"unlisted-issuer-same-serial", freeIssuer, sc.serial})
+		qs = append(qs, q{"listed", sc.issuer, sc.serial, 0, nil})
+		qs = append(qs, q{"listed-last", certs[len(certs)-1].issuer, certs[len(certs)-1].serial, 0, nil})
+		qs = append(qs, q{"same-issuer-other-serial", sc.issuer, new(big.Int).Add(sc.serial, big.NewInt(1)), 0, nil})
+		qs = append(qs, q{"same-issuer-negated-serial", sc.issuer, new(big.Int).Neg(sc.serial), 0, nil})
+		qs = append(qs, q{"other-listed-issuer-same-serial", order[r.IntN(len(order))], sc.serial, 0, nil})
+		qs = append(qs, q{"unlisted-issuer-same-serial", freeIssuer, sc.serial, 0, nil})
+		for _, t := range serialTwins(sc.serial) {
+			qs = append(qs, q{"twin:" + t.kind, sc.issuer, t.v, 0, nil})
+		}
+		qs = append(qs, q{"listed-with-zero-padded-der-serial", sc.issuer, sc.serial, 1 + r.IntN(2), nil})
 	}
-	qs = append(qs, q{"unrelated", freeIssuer, ub(randBytes(r, 1+r.IntN(12)))})
+	qs = append(qs, q{"unrelated", freeIssuer, ub(randBytes(r, 1+r.IntN(12))), 0, nil})
 	for _, qu := range qs {
-		cert, err := e.cert(e.names[qu.issuer], e.names[perm[11]], qu.serial, r.IntN(len(e.spkis)))
-		if err != nil {
+		var cert *zx509.Certificate
+		var err error
+		if qu.pad > 0 {
+			if cert, err = e.certPadded(e.names[qu.issuer], e.names[perm[11]], qu.serial, qu.pad, r.IntN(len(e.spkis))); err != nil {
+				c.Count("padded_serial_certificate_refused_by_parser", 1)
+				continue
+			}
+			qu.serial = cert.SerialNumber
+		} else if cert, err = e.cert(e.names[qu.issuer], e.names[perm[11]], qu.serial, r.IntN(len(e.spkis))); err != nil {
 			c.Count("query_cert_unparsable", 1)
 			continue
 		}
